@@ -4,6 +4,9 @@ import RbV.Lemmas.RankSelectModel
 import RbV.Lemmas.Wavelet
 import RbV.Lemmas.Bytes8
 import RbV.Gen.Dna2Int
+import RbV.Thm.GenSrcRankSelect
+import RbV.Thm.GenSrcWavelet
+import RbV.Thm.GenSrcWaveletCompose
 /-!
 # C17 — rank/select and wavelet-matrix queries equal naive counting
 
@@ -213,6 +216,174 @@ example : RbV.Model.Wavelet.rank (fun v => Gen.Dna2Int.table.getD v 0)
     (RbV.Model.Wavelet.build (fun v => Gen.Dna2Int.table.getD v 0) [65, 67, 78, 36, 78, 65]) 78 4 = 2 := by decide
 
 end models
+
+/-! ## rank/select: function bodies translated from the source text (session 4, genbits; docs/notes/GEN.md)
+
+`RbV/Gen/SrcRankSelect.lean` is regenerated from `src/data_structures/rank_select.rs` on every `./check C17`:
+`fn superblocks`, `RankSelect::rank_1`, `RankSelect::rank_0`.  External to rust-bio and therefore *assumed*: the `bv` crate
+(`bits.len()` = number of bits, `bits.get_block(b)` = the byte `blockByte bits b` whose bit `k` is bit `8b+k` of the vector,
+zero beyond the end), `u8::count_ones/count_zeros` (`Rs.countOnes`, `Rs.countZeros 8`) and the `f64` ceiling
+`(len as f64 / 8.0).ceil()` (`CeilOk cd8 len`: it is `⌈len / 8⌉`).  Proofs: `RbV/Thm/GenSrcRankSelect.lean`. -/
+section rankselect_source
+open RbV.Model.RankSelect RbV.Thm.GenSrcRankSelect
+
+/-- **`fn superblocks`, as written, is the model's `superblocks`** (both polarities, every `s > 0`) -/
+theorem superblocks_source_eq_model (bl : List Bool → Nat) (cd8 : Nat → Nat) (t : Bool) (bits : List Bool) (s : Nat)
+    (hs : 0 < s) (hn : bits.length < 2 ^ 60) (hcd : CeilOk cd8 bits.length) :
+    Gen.SrcRankSelect.superblocks (σ := SbRank) blockByte List.length bl cd8 SbRank.first SbRank.some SbRank.val
+        t bits.length s bits
+      = Rs.Res.ok (superblocks t bits.length s (getBlock bits)) :=
+  superblocks_eq_model bl cd8 t bits s hs hn hcd
+
+/-- **`RankSelect::rank_1`, as written, is the model's `rank1`** for every table `sbs1` that covers `i` (`hsb`) and whose
+entry cannot overflow the running `u64` rank (`hbound`) -/
+theorem rank1_source_eq_model (bl : List Bool → Nat) (cd8 : Nat → Nat) (bits : List Bool) (n s k : Nat)
+    (sbs1 sbs0 : List SbRank) (i : Nat) (hs : 0 < s) (hsb : i < n → i / s < sbs1.length)
+    (hbound : i < n → (sbs1.getD (i / s) (.first 0)).val + i + 8 < 2 ^ 64) :
+    Gen.SrcRankSelect.rank1 (σ := SbRank) blockByte List.length bl cd8 SbRank.first SbRank.some SbRank.val
+        n bits sbs1 sbs0 s k i
+      = Rs.Res.ok (rank1 n s (getBlock bits) sbs1 i) :=
+  rank1_eq_model bl cd8 bits n s k sbs1 sbs0 i hs hsb hbound
+
+/-- **`RankSelect::rank_0`, as written** (`self.rank_1(i).map(|r| (i + 1) - r)`) **is the model's `rank0`** -/
+theorem rank0_source_eq_model (bl : List Bool → Nat) (cd8 : Nat → Nat) (bits : List Bool) (n s k : Nat)
+    (sbs1 sbs0 : List SbRank) (i : Nat) (hs : 0 < s) (hsb : i < n → i / s < sbs1.length)
+    (hbound : i < n → (sbs1.getD (i / s) (.first 0)).val + i + 8 < 2 ^ 64)
+    (hle : ∀ r, rank1 n s (getBlock bits) sbs1 i = some r → r ≤ i + 1) :
+    Gen.SrcRankSelect.rank0 (σ := SbRank) blockByte List.length bl cd8 SbRank.first SbRank.some SbRank.val
+        n bits sbs1 sbs0 s k i
+      = Rs.Res.ok (rank0 n s (getBlock bits) sbs1 i) :=
+  rank0_eq_model bl cd8 bits n s k sbs1 sbs0 i hs hsb hbound hle
+
+/-- **generated code = specification**: the translated `superblocks` followed by the translated `rank_1` / `rank_0` return
+the number of 1-bits / 0-bits among positions `0..=i` (`None` exactly for `i ≥ n`), for every bit vector of fewer than 2^60
+bits, every `k ≥ 1`, every `i`; no operation panics -/
+theorem rank_source_exact (bl : List Bool → Nat) (cd8 : Nat → Nat) (bits : List Bool) (k : Nat) (hk : 1 ≤ k)
+    (hn : bits.length < 2 ^ 60) (hcd : CeilOk cd8 bits.length) (sbs0 : List SbRank) (i : Nat) :
+    ∃ sbs1, Gen.SrcRankSelect.superblocks (σ := SbRank) blockByte List.length bl cd8
+          SbRank.first SbRank.some SbRank.val true bits.length (k * 32) bits = Rs.Res.ok sbs1 ∧
+      Gen.SrcRankSelect.rank1 (σ := SbRank) blockByte List.length bl cd8 SbRank.first SbRank.some SbRank.val
+          bits.length bits sbs1 sbs0 (k * 32) k i = Rs.Res.ok (rankRef true bits i) ∧
+      Gen.SrcRankSelect.rank0 (σ := SbRank) blockByte List.length bl cd8 SbRank.first SbRank.some SbRank.val
+          bits.length bits sbs1 sbs0 (k * 32) k i = Rs.Res.ok (rankRef false bits i) :=
+  GenSrcRankSelect.rank_source_exact bl cd8 bits k hk hn hcd sbs0 i
+
+-- non-vacuity on the 40-bit vector `exBits` (two superblocks for k = 1): the translated functions, evaluated
+example : Gen.SrcRankSelect.superblocks (σ := SbRank) blockByte List.length (fun _ => 5) (fun x => (x + 7) / 8)
+    SbRank.first SbRank.some SbRank.val true 40 32 exBits = Rs.Res.ok [SbRank.first 0, SbRank.some 0] := by decide
+example : Gen.SrcRankSelect.rank1 (σ := SbRank) blockByte List.length (fun _ => 5) (fun x => (x + 7) / 8)
+    SbRank.first SbRank.some SbRank.val 40 exBits [SbRank.first 0, SbRank.some 0] [] 32 1 36 = Rs.Res.ok (some 3) := by
+  decide
+example : Gen.SrcRankSelect.rank0 (σ := SbRank) blockByte List.length (fun _ => 5) (fun x => (x + 7) / 8)
+    SbRank.first SbRank.some SbRank.val 40 exBits [SbRank.first 0, SbRank.some 0] [] 32 1 40 = Rs.Res.ok none := by
+  decide
+-- superblock size 0: `n / s` in the capacity computation panics (division by zero)
+example : Gen.SrcRankSelect.superblocks (σ := SbRank) blockByte List.length (fun _ => 5) (fun x => (x + 7) / 8)
+    SbRank.first SbRank.some SbRank.val true 40 0 exBits = Rs.Res.panic := by decide
+
+end rankselect_source
+
+/-! ## wavelet matrix: function bodies translated from the source text, and the composition wavelet ∘ rank/select
+
+`RbV/Gen/SrcWavelet.lean` (regenerated from `src/data_structures/wavelet_matrix.rs` on every `./check C17`):
+`WaveletMatrix::check_overflow`, `prank`, `rank`.  The levels' `RankSelect::rank_0/1` are abstract (possibly panicking)
+functions there; `LevelsOk` is what the wavelet code assumes about them.  Proofs: `RbV/Thm/GenSrcWavelet.lean`,
+`RbV/Thm/GenSrcWaveletCompose.lean`. -/
+section wavelet_source
+open RbV.Model.RankSelect RbV.Model.Wavelet RbV.Thm.GenSrcWavelet RbV.Thm.GenSrcWaveletCompose
+
+/-- **`WaveletMatrix::prank`, as written, is the model's `prank`** (existing level, `p ≤ width`, `val` ∈ {0, 1}) -/
+theorem wavelet_prank_source_eq_model {ρ : Type} (rank0 rank1 : ρ → Nat → Rs.Res (Option Nat)) (W H : Nat)
+    (zeros : List Nat) (levels : List ρ) (lvs : List Level) (hok : LevelsOk rank0 rank1 W zeros levels lvs)
+    (level : Nat) (lv : Level) (hl : lvs[level]? = some lv) (b : Bool) (p : Nat) (hp : p ≤ W) :
+    Gen.SrcWavelet.prank rank0 rank1 W H zeros levels level p (if b then 1 else 0)
+      = Rs.Res.ok (Model.Wavelet.prank (rkSpec lvs level) p b) :=
+  prank_eq_model rank0 rank1 W H zeros levels lvs hok level lv hl b p hp
+
+/-- **`WaveletMatrix::rank`, as written, is the model's `rank`** on every structure satisfying `LevelsOk`, for every
+in-range `p`; out-of-range `p` is refused (`check_overflow`, translated too) -/
+theorem wavelet_rank_source_eq_model {ρ : Type} (rank0 rank1 : ρ → Nat → Rs.Res (Option Nat)) (W : Nat)
+    (hW : W < 2 ^ 63) (zeros : List Nat) (levels : List ρ) (lvs : List Level)
+    (hok : LevelsOk rank0 rank1 W zeros levels lvs) (hH : lvs.length ≤ 8) (table : List Nat) (c : Nat)
+    (hc : c < table.length) (p : Nat) :
+    (p < W → Gen.SrcWavelet.rank rank0 rank1 W lvs.length zeros levels table c p
+      = Rs.Res.ok (Model.Wavelet.rank (fun v => table.getD v 0) (rkSpec lvs) lvs c p)) ∧
+    (W ≤ p → Gen.SrcWavelet.rank rank0 rank1 W lvs.length zeros levels table c p = Rs.Res.panic) :=
+  ⟨rank_eq_model rank0 rank1 W hW zeros levels lvs hok hH table c hc p,
+   rank_oob_panics rank0 rank1 W lvs.length zeros levels table c p⟩
+
+/-- **composition (mirror models)**: the wavelet mirror model run over the *RankSelect mirror model* of every level
+(`rank1` / `rank0` with the `superblocks` table of `RankSelect::new(bits, 1)`) — instead of the declarative rank — returns
+`occ`.  One statement for `WaveletMatrix::rank` ∘ `RankSelect::rank_0/1` at model level (DESIGN §13 row C17). -/
+theorem wavelet_rank_over_rankselect_model (text : List Nat) (c p : Nat)
+    (hp : p < text.length) (hc : c ∈ dnaSyms) (htext : ∀ x ∈ text, x ∈ dnaSyms) :
+    Model.Wavelet.rank (fun v => Gen.Dna2Int.table.getD v 0)
+        (fun level b i => match (build (fun v => Gen.Dna2Int.table.getD v 0) text)[level]? with
+          | some lv => if b then rank1 lv.bits.length (1 * 32) (getBlock lv.bits)
+                                  (superblocks true lv.bits.length (1 * 32) (getBlock lv.bits)) i
+                       else rank0 lv.bits.length (1 * 32) (getBlock lv.bits)
+                                  (superblocks true lv.bits.length (1 * 32) (getBlock lv.bits)) i
+          | none => none)
+        (build (fun v => Gen.Dna2Int.table.getD v 0) text) c p
+      = occ text c p := by
+  have hrk : (fun level b i => match (build (fun v => Gen.Dna2Int.table.getD v 0) text)[level]? with
+          | some lv => if b then rank1 lv.bits.length (1 * 32) (getBlock lv.bits)
+                                  (superblocks true lv.bits.length (1 * 32) (getBlock lv.bits)) i
+                       else rank0 lv.bits.length (1 * 32) (getBlock lv.bits)
+                                  (superblocks true lv.bits.length (1 * 32) (getBlock lv.bits)) i
+          | none => none)
+      = rkSpec (build (fun v => Gen.Dna2Int.table.getD v 0) text) := by
+    funext level b i
+    unfold rkSpec
+    cases (build (fun v => Gen.Dna2Int.table.getD v 0) text)[level]? with
+    | none => rfl
+    | some lv =>
+      cases b with
+      | true => simpa using (rank_correct lv.bits 1 (by omega) i).1
+      | false => simpa using (rank_correct lv.bits 1 (by omega) i).2
+  rw [hrk]
+  exact wavelet_rank_correct_generated text c p hp hc htext
+
+/-- **composition (translated code)**: `WaveletMatrix::rank` *as written*, over levels whose `rank_0` / `rank_1` are
+`RankSelect::rank_0` / `rank_1` *as written* (on the bit vectors and 1-superblock tables of the levels the mirror model of
+`WaveletMatrix::new` builds, with the `DNA2INT` table extracted on this run) returns the number of occurrences of `c` in
+`text[0..=p]` — for every text over A,C,G,T,N,$ of fewer than 2^60 symbols, every such `c`, every `p < |text|`; no
+`unwrap`, index, shift or arithmetic operation of either function panics. -/
+theorem wavelet_rank_source_composed (bl : List Bool → Nat) (cd8 : Nat → Nat) (text : List Nat)
+    (hn : text.length < 2 ^ 60) (c p : Nat) (hp : p < text.length) (hc : c ∈ dnaSyms)
+    (htext : ∀ x ∈ text, x ∈ dnaSyms) :
+    Gen.SrcWavelet.rank (srcRank0 bl cd8) (srcRank1 bl cd8) text.length 3
+        ((build (fun v => Gen.Dna2Int.table.getD v 0) text).map (·.zeros))
+        ((build (fun v => Gen.Dna2Int.table.getD v 0) text).map mkRS) Gen.Dna2Int.table c p
+      = Rs.Res.ok (occ text c p) := by
+  have hok := levels_ok bl cd8 (fun v => Gen.Dna2Int.table.getD v 0) 3 text hn
+  have hlen : (buildLevels (fun v => Gen.Dna2Int.table.getD v 0) 3 text).length = 3 :=
+    RbV.Lemmas.Wavelet.length_buildLevels _ 3 text
+  have htab : Gen.Dna2Int.table.length = 128 := (tableOk_sound _ dna2int_generated_ok).1
+  have hc128 : c < Gen.Dna2Int.table.length := by
+    rw [htab]
+    have : ∀ a ∈ dnaSyms, a < 128 := by decide
+    exact this c hc
+  have h := rank_eq_model (srcRank0 bl cd8) (srcRank1 bl cd8) text.length (by omega) _ _ _ hok (by rw [hlen]; omega)
+    Gen.Dna2Int.table c hc128 p hp
+  rw [hlen] at h
+  show Gen.SrcWavelet.rank (srcRank0 bl cd8) (srcRank1 bl cd8) text.length 3
+    ((buildLevels (fun v => Gen.Dna2Int.table.getD v 0) 3 text).map (·.zeros))
+    ((buildLevels (fun v => Gen.Dna2Int.table.getD v 0) 3 text).map mkRS) Gen.Dna2Int.table c p = _
+  rw [h]
+  exact congrArg Rs.Res.ok (wavelet_rank_correct_generated text c p hp hc htext)
+
+-- non-vacuity: the text "ACN$NA"; translated `rank('N', 4)` over translated `rank_0/1` = 2
+example : Gen.SrcWavelet.rank (srcRank0 (fun _ => 0) (fun x => (x + 7) / 8)) (srcRank1 (fun _ => 0) (fun x => (x + 7) / 8)) 6 3
+    ((build (fun v => Gen.Dna2Int.table.getD v 0) [65, 67, 78, 36, 78, 65]).map (·.zeros))
+    ((build (fun v => Gen.Dna2Int.table.getD v 0) [65, 67, 78, 36, 78, 65]).map mkRS) Gen.Dna2Int.table 78 4
+    = Rs.Res.ok 2 := by decide
+example : Gen.SrcWavelet.rank (srcRank0 (fun _ => 0) (fun x => (x + 7) / 8)) (srcRank1 (fun _ => 0) (fun x => (x + 7) / 8)) 6 3
+    ((build (fun v => Gen.Dna2Int.table.getD v 0) [65, 67, 78, 36, 78, 65]).map (·.zeros))
+    ((build (fun v => Gen.Dna2Int.table.getD v 0) [65, 67, 78, 36, 78, 65]).map mkRS) Gen.Dna2Int.table 78 6
+    = Rs.Res.panic := by decide
+
+end wavelet_source
 
 example : selectRef true [false, true, true, false, true] 3 = some 4 := by decide
 example : rankRef false [false, true, true, false, true] 3 = some 2 := by decide
